@@ -21,7 +21,7 @@ General theorems (any row satisfying the decidable predicate `Row.WF`, any versi
 Instances over the regenerated tables (the row predicate is discharged by `decide`):
 
 * `tables_wf`, `forge_wiring`, `forge_exchange`, `forge_seq`, `forge_unknown_nil`,
-  `forge_nil_iff`, `weak_adds_weak_cbc`.
+  `forge_nil_iff`, `weak_adds_weak_cbc`, `weak_extends_base`, `forge_wiring_survives_weak`.
 
 `d16_swapped_flags_not_wired` keeps the repaired defect visible: the pre-repair transcription
 (client side built with the flags swapped) is *not* wired for any row whose constructor takes a
@@ -255,16 +255,36 @@ theorem forge_seq (tbl : List Row) (id v : Nat) (isClient : Bool) (c : Conn)
     obtain ⟨h1, h2, _, _, _, _, _, _, h9, h10, _, h12⟩ := forge_seq_row r v isClient c h
     exact ⟨h1, h2, h9, by rw [h10]; exact (lookup_some hl).2, h12⟩
 
-/-- what `EnableWeakCiphers` does to the table the function searches, as the code has it now: the
-three weak CBC suites appear, every upstream suite stays — and the two legacy ChaCha20 code points
-(0xcc13, 0xcc14) *disappear*, because the function rebuilds the list from `cipherSuites` rather than
-extending the current one. (Recorded, not judged: the property text asks for nil on whatever is
-unsupported at the time of the call.) -/
+/-- `EnableWeakCiphers` only *adds* (D21 repaired — it used to rebuild the list from `cipherSuites`
+and so dropped the legacy ChaCha20 code points 0xcc13/0xcc14): the table searched afterwards is
+the start-up table, row for row, followed by the three weak CBC rows; the start-up table is the
+upstream table followed by the two legacy ChaCha20 code points. -/
 theorem weak_adds_weak_cbc :
-    (Gen.Suites.weak.map (·.id)) = (Gen.Suites.upstream.map (·.id)) ++ [0x003d, 0xc024, 0xc028] ∧
-    (Gen.Suites.base.map (·.id)) = (Gen.Suites.upstream.map (·.id)) ++ [0xcc13, 0xcc14] ∧
-    (∀ r ∈ Gen.Suites.weak, r.id ≠ 0xcc13 ∧ r.id ≠ 0xcc14) := by
+    Gen.Suites.weak.take Gen.Suites.base.length = Gen.Suites.base ∧
+    (Gen.Suites.weak.drop Gen.Suites.base.length).map (·.id) = [0x003d, 0xc024, 0xc028] ∧
+    (Gen.Suites.base.map (·.id)) = (Gen.Suites.upstream.map (·.id)) ++ [0xcc13, 0xcc14] := by
   decide
+
+private theorem weak_extends_base_tbl :
+    Gen.Suites.base.all (fun r => lookup Gen.Suites.weak r.id == some r) = true := by decide
+
+/-- nothing is dropped: every suite the function finds before `EnableWeakCiphers` it finds
+afterwards, as the same row. -/
+theorem weak_extends_base (id : Nat) (r : Row) (h : lookup Gen.Suites.base id = some r) :
+    lookup Gen.Suites.weak id = some r := by
+  obtain ⟨hm, hid⟩ := lookup_some h
+  have := (List.all_eq_true.mp weak_extends_base_tbl) r hm
+  rw [hid] at this
+  simpa using this
+
+/-- so every pair that is wired before `EnableWeakCiphers` (in particular the legacy ChaCha20 code
+points) is wired after it. -/
+theorem forge_wiring_survives_weak (id v : Nat) (r : Row) (hl : lookup Gen.Suites.base id = some r)
+    (hv : validVersion r v = true) :
+    ∃ c s, make (table true) id v true = .conn c ∧ make (table true) id v false = .conn s ∧
+      wired c.outH s.inH = true ∧ wired s.outH c.inH = true := by
+  obtain ⟨c, s, hc, hs, h1, h2, _⟩ := forge_wiring true id v r (by simpa [table] using weak_extends_base id r hl) hv
+  exact ⟨c, s, hc, hs, h1, h2⟩
 
 /-- no id occurs twice in either table, so "first row with this id" is "the row with this id". -/
 theorem table_ids_nodup : (Gen.Suites.base.map (·.id)).Nodup ∧ (Gen.Suites.weak.map (·.id)).Nodup := by
@@ -319,8 +339,8 @@ theorem toy_lawful : toy.Lawful toyMatch := by
 
 -- a CBC row of the regenerated table is well-formed and TLS 1.0 is valid for it; a TLS 1.2-only
 -- AEAD row is valid only for TLS 1.2
-example : Gen.Suites.base_7.WF = true ∧ validVersion Gen.Suites.base_7 versionTLS10 = true ∧
-    validVersion Gen.Suites.base_2 versionTLS12 = true ∧ validVersion Gen.Suites.base_2 versionTLS11 = false := by
+example : (lookup Gen.Suites.base 0xc013).any (fun r => r.WF && validVersion r versionTLS10) = true ∧
+    (lookup Gen.Suites.base 0xc02f).any (fun r => validVersion r versionTLS12 && !validVersion r versionTLS11) = true := by
   decide
 
 -- forge_wiring / forge_seq on a concrete CBC suite (0xc013, TLS 1.1): the client's out half
@@ -334,16 +354,28 @@ example : make (table false) 0xc013 versionTLS11 true = .conn
 example : ∃ c s, make (table true) 0xc024 versionTLS12 true = .conn c ∧
     make (table true) 0xc024 versionTLS12 false = .conn s ∧
     transfer toy c.outH s.inH [[1, 2, 3], [], [4]] = some [[1, 2, 3], [], [4]] ∧
-    transfer toy s.outH c.inH [[1, 2, 3], [], [4]] = some [[1, 2, 3], [], [4]] :=
-  forge_exchange toy toyMatch toy_lawful true 0xc024 versionTLS12 Gen.Suites.weak_23 (by decide) (by decide) _
+    transfer toy s.outH c.inH [[1, 2, 3], [], [4]] = some [[1, 2, 3], [], [4]] := by
+  cases hl : lookup (table true) 0xc024 with
+  | none => exact absurd hl (by decide)
+  | some r =>
+    have hv : validVersion r versionTLS12 = true := by
+      have h : (lookup (table true) 0xc024).all (fun r => validVersion r versionTLS12) = true := by decide
+      rw [hl] at h; simpa using h
+    exact forge_exchange toy toyMatch toy_lawful true 0xc024 versionTLS12 r hl hv _
 
 -- the toy protection really rejects the pre-repair wiring (so `Lawful` is not vacuous about the flag)
 example : transfer toy preRepairClientOut
     { version := versionTLS12, cipher := some ⟨.client, .client, some true⟩, mac := some .client, seq := 1 }
     [[1]] = none := by decide
 
--- forge_unknown_nil: a TLS 1.3 suite id and, after EnableWeakCiphers, a legacy ChaCha20 code point
-example : make (table false) 0x1301 versionTLS12 true = .nil ∧ make (table true) 0xcc13 versionTLS12 false = .nil := by
+-- forge_unknown_nil: a TLS 1.3 suite id and a FAKE_ id no table has
+example : make (table false) 0x1301 versionTLS12 true = .nil ∧ make (table true) 0xcc15 versionTLS12 false = .nil := by
+  decide
+
+-- D21 regression: a legacy ChaCha20 code point is still found after EnableWeakCiphers, and its pair is wired
+example : lookup (table true) 0xcc13 = lookup (table false) 0xcc13 ∧
+    (lookup (table true) 0xcc13).any (fun r => validVersion r versionTLS12) = true ∧
+    lookup (table true) 0xcc14 = lookup (table false) 0xcc14 ∧ (lookup (table true) 0xcc14).isSome = true := by
   decide
 
 -- a supported suite with a version outside TLS 1.0–1.2 panics in prfForVersion (not nil, not a conn)
